@@ -202,7 +202,7 @@ HOLES = [
 BAD_EXPRS = ["1 ~= 2", "a ==", "== a", "a b c", "", "(1..", "a |", "1 2", "a,,b", "a[", "'unclosed", "a.", "&", "a == == b", "a: b: c", "not", "(a", ")"]
 
 
-def campaign(ctx: core.Ctx, tier: str, shard: int, nshards: int) -> None:
+def _campaign(ctx: core.Ctx, tier: str, shard: int, nshards: int) -> None:
     idx = 0
     base_cfg = {"undefined": "default", "autoescape": False, "strict_filters": True, "extra": True, "loader": "dict", "ns": False,
                 "flags": {"ternary_expressions": True, "logical_not_operator": True, "logical_parentheses": True}}
@@ -215,7 +215,16 @@ def campaign(ctx: core.Ctx, tier: str, shard: int, nshards: int) -> None:
     core.drive(cases(), ctx.run, n=max(1, total // nshards), seed=core.sub_seed(ctx.seed, shard))
 
 
-def finish_kwargs(ctx: core.Ctx, tier: str) -> dict:
+def campaign(ctx: core.Ctx, tier: str, shard: int, nshards: int) -> None:
+    _campaign(ctx, tier, shard, nshards)
+    if tier == "thorough":
+        # coverage-guided stage: one libFuzzer campaign per shard with this module's evaluate() as the in-target oracle
+        from .. import fuzz
+
+        fuzz.campaign(ctx, PID, runs=15000, seed=core.sub_seed(ctx.seed, shard, 9))
+
+
+def _finish_kwargs(ctx: core.Ctx, tier: str) -> dict:
     return {
         "rule": (
             "Valid generated templates, the same after 1-3 mutation operators (delete/duplicate/swap token, drop "
@@ -229,3 +238,13 @@ def finish_kwargs(ctx: core.Ctx, tier: str) -> dict:
             "suppressed errors are counted at Environment.error (the single choke point used by parser, Tag.get_node and render_with_context)",
         ],
     }
+
+
+def finish_kwargs(ctx: core.Ctx, tier: str) -> dict:
+    kw = _finish_kwargs(ctx, tier)
+    if tier == "thorough":
+        from .. import fuzz
+
+        kw["rule"] += fuzz.RULE_NOTE
+        kw.setdefault("assumptions", []).append(fuzz.ASSUMPTION)
+    return kw
